@@ -128,7 +128,7 @@ func c11Transitions(c *Ctx, p *Prog, m *Model) {
 					if !ok || fa.X != ssa.Value(receiver(fn)) {
 						continue
 					}
-					f := structOf(fa.X.Type()).Field(fa.Field).Name()
+					f := nm(structOf(fa.X.Type()).Field(fa.Field))
 					switch {
 					case st.Val == ssa.Value(ph):
 						got[f] = fmt.Sprint(mv)
@@ -173,7 +173,7 @@ func c11Transitions(c *Ctx, p *Prog, m *Model) {
 		ok := false
 		for _, an := range fn.AnonFuncs {
 			for _, cs := range callsIn(an) {
-				if cal := calleeOf(cs); cal != nil && cal.Name() == want && len(an.Params) == 1 && cs.Common().Args[0] == ssa.Value(an.Params[0]) {
+				if cal := calleeOf(cs); cal != nil && nm(cal) == want && len(an.Params) == 1 && cs.Common().Args[0] == ssa.Value(an.Params[0]) {
 					// variadic args are the captured parameter
 					if len(cs.Common().Args) == 2 {
 						if _, isFV := sources(cs.Common().Args[1])[0].(*ssa.FreeVar); isFV {
@@ -201,7 +201,7 @@ func c11Transitions(c *Ctx, p *Prog, m *Model) {
 		want := "Set" + strings.TrimPrefix(wn, "With")
 		ok := false
 		for _, cs := range callsIn(fn) {
-			if cal := calleeOf(cs); cal != nil && cal.Name() == want {
+			if cal := calleeOf(cs); cal != nil && nm(cal) == want {
 				if c0, isCall := strip(cs.Common().Args[0]).(*ssa.Call); isCall && calleeOf(c0) == ncl && len(cs.Common().Args) == 2 && cs.Common().Args[1] == ssa.Value(fn.Params[1]) {
 					ok = true
 				}
@@ -289,7 +289,7 @@ func c11Encoder(c *Ctx, p *Prog, m *Model) {
 					if !ok || fa.X != ssa.Value(receiver(se)) {
 						continue
 					}
-					f := structOf(fa.X.Type()).Field(fa.Field).Name()
+					f := nm(structOf(fa.X.Type()).Field(fa.Field))
 					if f != "jsonMode" && f != "noColor" {
 						continue
 					}
@@ -330,7 +330,7 @@ func c11Encoder(c *Ctx, p *Prog, m *Model) {
 	if pr := p.Method(p.Slog, "Entry", "print"); pr != nil {
 		ok := false
 		for _, cs := range callsIn(pr) {
-			if cal := calleeOf(cs); cal != nil && cal.Name() == "set" && len(cs.Common().Args) > 1 && cs.Common().Args[1] == ssa.Value(receiver(pr)) {
+			if cal := calleeOf(cs); cal != nil && nm(cal) == "set" && len(cs.Common().Args) > 1 && cs.Common().Args[1] == ssa.Value(receiver(pr)) {
 				ok = true
 			}
 		}
